@@ -5,7 +5,10 @@ package main
 import (
 	"fmt"
 	"go/token"
+	"go/types"
 	"strings"
+
+	"golang.org/x/tools/go/ssa"
 )
 
 const (
@@ -570,6 +573,18 @@ func ruleC06(c *Ctx) {
 	AU := AR + "[*].Audiences"
 	matchAtom := AU + "[*].Value == SP.AudienceURI"
 	nStore, nMatch, nZero, nSticky := 0, 0, 0, 0
+	// what one iteration inherits from the earlier ones: the field itself when it is written inside the loop, or the
+	// header phi of a local that flows into the field
+	accKeys := accumulatorPhis(vc.Root, "NotInAudience")
+	carriedFlag := func(v Val) bool {
+		switch x := v.(type) {
+		case *UnknownV:
+			return strings.HasPrefix(x.Why, "loop-carried ") && strings.HasSuffix(x.Why, ".NotInAudience")
+		case *LoopPhiV:
+			return accKeys[phiSuffix(x.Key())]
+		}
+		return false
+	}
 	for _, t := range vc.Terms {
 		if !t.accepting(vc.Root) {
 			continue
@@ -579,16 +594,28 @@ func ruleC06(c *Ctx) {
 		// the final flag is a constant of the path, or what earlier restrictions left (the loop-carried content)
 		stored, known := finalFlag(t, "NotInAudience")
 		unchanged := false
-		if fv, fst := t.finalFieldState(t.Vals[0], "NotInAudience"); !known && fst == "stored" {
-			if u, isU := fv.(*UnknownV); isU && strings.HasPrefix(u.Why, "loop-carried ") && strings.HasSuffix(u.Why, ".NotInAudience") {
-				unchanged = true
-			}
+		if fv, fst := t.finalFieldState(t.Vals[0], "NotInAudience"); !known && fst == "stored" && carriedFlag(fv) {
+			unchanged = true
 		}
 		if known {
 			// a constant equal to what the path knows about the loop-carried content is "unchanged" too
+			sawCarried := false
 			for _, f := range t.St.facts {
-				if u, isU := f.Cond.(*UnknownV); isU && strings.HasPrefix(u.Why, "loop-carried ") && strings.HasSuffix(u.Why, ".NotInAudience") && f.Pol == stored {
-					unchanged = true
+				if carriedFlag(f.Cond) {
+					sawCarried = true
+					if f.Pol == stored {
+						unchanged = true
+					}
+				}
+			}
+			// the flag is accumulated in a local of the restriction loop, the path is inside a generic iteration and has
+			// replaced what earlier iterations left by a constant without looking at it
+			if enter := loopEnterOver(c, t, AR); enter != nil && !sawCarried && atoms[matchAtom] {
+				for _, pi := range enter.Phis {
+					if accKeys[phiSuffix(pi.Key)] && !stored {
+						o := c.bad("C06-R1", fname, "a matching restriction leaves the flag as earlier restrictions left it", pos, "the flag accumulated across the restrictions ("+pi.Key+") is overwritten with false on a matching restriction without having been read: the last restriction decides instead of all of them")
+						o.Path = t.pathDesc(c.P)
+					}
 				}
 			}
 		}
@@ -636,7 +663,35 @@ func ruleC06(c *Ctx) {
 	c.floor("C06-R1/match-paths", 1)
 	c.floor("C06-R1/zero-paths", 1)
 	c.count("C06-R1/stores-inside-restriction-loop", nSticky)
-	c.floor("C06-R1/stores-inside-restriction-loop", 1)
+	// no such store exists today (the flag is stored after the loop has been left): positive control
+	ctlFired := 0
+	for _, fn := range controlFns(c, "lastwins") {
+		res := c.intraKernel(fn)
+		if res == nil {
+			continue
+		}
+		sub := NewCtx(c.P, c.Prop, c.Tier)
+		for _, t := range res.Terms {
+			if t.Kind != "return" {
+				continue
+			}
+			for _, e := range t.St.events {
+				if g, isB := constBool(e.Val); e.Kind == EvLoopEnter && isB && g {
+					stickyFlag(sub, "C06-R1", t, shortFn(fn), "Flag", e)
+					break
+				}
+			}
+		}
+		for _, o := range sub.Obs {
+			if o.Status == "violated" {
+				ctlFired++
+			}
+		}
+	}
+	c.Controls["C06-R1 lastwins"] = ctlFired > 0
+	if ctlFired == 0 {
+		c.bad("C06-R1", "controls/lastwins", "positive control", "-", "the sticky-flag rule did not flag the control in which the last group decides")
+	}
 
 	// R3
 	nOTU, nPR := 0, 0
@@ -736,6 +791,55 @@ func ruleC06(c *Ctx) {
 	}
 }
 
+// accumulatorPhis: the boolean loop-header phis of fn whose value flows (through phis only) into a store to the named
+// field — a flag kept in a local across iterations. Keys are "b<header index>.<phi name>" (see phiSuffix).
+func accumulatorPhis(fn *ssa.Function, field string) map[string]bool {
+	out := map[string]bool{}
+	loops := findLoops(fn)
+	seen := map[ssa.Value]bool{}
+	var trace func(v ssa.Value)
+	trace = func(v ssa.Value) {
+		p, ok := v.(*ssa.Phi)
+		if !ok || seen[v] {
+			return
+		}
+		seen[v] = true
+		if loops[p.Block()] != nil && isBoolType(p.Type()) {
+			out[fmt.Sprintf("b%d.%s", p.Block().Index, p.Name())] = true
+		}
+		for _, e := range p.Edges {
+			trace(e)
+		}
+	}
+	for _, b := range fn.Blocks {
+		for _, in := range b.Instrs {
+			st, ok := in.(*ssa.Store)
+			if !ok {
+				continue
+			}
+			fa, ok := st.Addr.(*ssa.FieldAddr)
+			if !ok {
+				continue
+			}
+			if owner, _ := derefStruct(fa.X.Type()); owner != nil {
+				if stt, isS := owner.Underlying().(*types.Struct); isS && fa.Field < stt.NumFields() && stt.Field(fa.Field).Name() == field {
+					trace(st.Val)
+				}
+			}
+		}
+	}
+	return out
+}
+
+// phiSuffix: "b<header index>.<phi name>" of a loop-phi key "loopphi(<ctx>/loop.<fn>:b<idx>.<name>)".
+func phiSuffix(key string) string {
+	i := strings.LastIndex(key, ":b")
+	if i < 0 || !strings.HasSuffix(key, ")") {
+		return ""
+	}
+	return key[i+1 : len(key)-1]
+}
+
 // loopEnterOver: the loop-enter event of the generic iteration whose induction variable the path compares with len(coll).
 func loopEnterOver(c *Ctx, t *Terminal, coll string) *Event {
 	want := "len(" + coll + ")"
@@ -784,9 +888,18 @@ func stickyFlag(c *Ctx, rule string, t *Terminal, fname, field string, enter *Ev
 		u, ok := v.(*UnknownV)
 		return ok && strings.HasPrefix(u.Why, "loop-carried ") && strings.HasSuffix(u.Why, "."+field)
 	}
+	// the iteration ends at the loop-exit event; a store after it (store-then-break, or the final assignment of a flag kept
+	// in a local) is judged by the path classes
+	exitSeq := len(t.St.events) + 1
+	for _, e := range t.St.events {
+		if e.Kind == EvLoopExit && e.Callee == enter.Callee && e.Seq > enter.Seq {
+			exitSeq = e.Seq
+			break
+		}
+	}
 	n := 0
 	for _, e := range t.St.events {
-		if e.Kind != EvStore || e.Seq <= enter.Seq {
+		if e.Kind != EvStore || e.Seq <= enter.Seq || e.Seq >= exitSeq {
 			continue
 		}
 		fa, ok := e.Addr.(*FieldAddrV)
@@ -797,6 +910,9 @@ func stickyFlag(c *Ctx, rule string, t *Terminal, fname, field string, enter *Ev
 		pos := c.P.InstrPos(e.Instr)
 		what := "store to " + field + " inside the restriction loop keeps an earlier restriction's warning"
 		b, isConst := constBool(e.Val)
+		if _, isU := e.Val.(*UnknownV); !isConst && !isU && isBoolType(e.Val.Type()) {
+			b, isConst = t.factTrue(e.Val) // a stored comparison the path has decided
+		}
 		switch {
 		case isConst && b:
 			c.ok(rule, fname, what, pos, "stores true")
@@ -935,8 +1051,15 @@ func finalFlag(t *Terminal, name string) (val bool, known bool) {
 	case "zero":
 		return false, true
 	case "stored":
-		b, ok := constBool(v)
-		return b, ok
+		if b, ok := constBool(v); ok {
+			return b, true
+		}
+		// a stored comparison the path has decided
+		if isBoolType(v.Type()) {
+			if _, isU := v.(*UnknownV); !isU {
+				return t.factTrue(v)
+			}
+		}
 	}
 	return false, false
 }
